@@ -17,6 +17,7 @@ enum {
 	EV_END,        // work item / handler ends   (id = item id)
 	EV_NOTE,       // free-form observation      (id, arg)
 	EV_FREE,       // free() of a watched pointer (id given to vx_watch_free)
+	EV_IO,         // read/write/pread/pwrite issued by the code under test on a watched descriptor (id = 0 read, 1 write; arg = result or -errno)
 	EV_USER = 16,  // harness-private kinds start here
 };
 
